@@ -347,6 +347,11 @@ def runner_main(check, prop, tier, base_seed, k, n, total, deadline, outdir, kno
             i += n
             continue
         res = run_forked(check, case)
+        if res['cls'] == 'harness-error' and res['verdict'] in ('harness-timeout', 'child-died'):
+            # the forked child produced no result within the wall limit (seen about once in 10^5 runs on a loaded machine, never
+            # reproducibly): the case is run again; only a case that fails to produce a result twice counts as a harness error
+            agg['counters']['harness_run_repeated_after_no_result'] = agg['counters'].get('harness_run_repeated_after_no_result', 0) + 1
+            res = run_forked(check, case, wall=2 * RUN_WALL_LIMIT)
         agg['runs'] += 1
         agg['cls'][res['cls']] = agg['cls'].get(res['cls'], 0) + 1
         agg['verdicts'][res['verdict']] = agg['verdicts'].get(res['verdict'], 0) + 1
